@@ -924,6 +924,185 @@ example : ctxClean [.tickBegin, .beat 2, .ctx 2 false (some 3) true] = false := 
 example : ctxClean [.tickBegin, .beat 2, .ctx 2 true (some 2) false] = false := by decide
 example : ctxClean [.tickBegin, .beat 2, .ctx 2 true (some 2) true, .beatEnd 2, .beat 3, .ctx 3 false none true] = true := by decide
 
+/-! ### a fourth trace-level clause: no heart beat in a tick that runs without TIMER_FLAG_HEARTBEAT -/
+
+/-- in a tick that begins with `tickOff` (timer_flags without TIMER_FLAG_HEARTBEAT) nobody beats, until a later tick begins
+    with `tickBegin` -/
+def quietWhenOff (off : Bool) : List Ev → Bool
+  | [] => true
+  | .tickOff :: r => quietWhenOff true r
+  | .tickBegin :: r => quietWhenOff false r
+  | .beat _ :: r => !off && quietWhenOff off r
+  | _ :: r => quietWhenOff off r
+
+/-- oracle states that cannot accept a `beat` -/
+def quietExp : Expect → Bool
+  | .beat _ => false
+  | .inBeat => false
+  | _ => true
+
+theorem jErr1_expect (j : JState) : (jErr1 j).expect = j.expect := by
+  unfold jErr1
+  cases j.cur with
+  | none => rfl
+  | some c => exact (jDisableAlive_frame j c).expect
+
+/-- every event other than `tickBegin` and `beat` keeps the oracle in a state that cannot accept a beat -/
+theorem quiet_step (j : JState) (e : Ev) (hq : quietExp j.expect = true) (hnt : e ≠ .tickBegin) (hnb : ∀ o, e ≠ .beat o) :
+    quietExp (judge1 j e).expect = true := by
+  cases e with
+  | tickBegin => exact absurd rfl hnt
+  | beat o => exact absurd rfl (hnb o)
+  | tickEnd => simp only [judge1]; split <;> (try split) <;> rfl
+  | tickAbort => simp only [judge1]; split <;> rfl
+  | beatEnd o =>
+    simp only [judge1]
+    split
+    · rename_i hc
+      have : j.expect = .inBeat := by simpa using hc
+      rw [this] at hq; cases hq
+    · exact hq
+  | shb s t n q =>
+    simp only [judge1]
+    split
+    · exact hq
+    · split
+      · exact hq
+      · split
+        · rw [(jSet_frame j t n).expect]; exact hq
+        · show quietExp (jSet j t n).expect = true
+          rw [(jSet_frame j t n).expect]; exact hq
+  | shbDead s t n => simp only [judge1]; split <;> exact hq
+  | query s t q => simp only [judge1]; split <;> (try split) <;> exact hq
+  | queryDead s t => simp only [judge1]; split <;> exact hq
+  | dest s t =>
+    simp only [judge1]
+    split
+    · exact hq
+    · split
+      · exact hq
+      · show quietExp (jDisable j t).expect = true
+        rw [(jDisable_frame j t).expect]; exact hq
+  | destNone s t => simp only [judge1]; split <;> exact hq
+  | clone s new kind n q =>
+    simp only [judge1]
+    split
+    · exact hq
+    · split
+      · exact hq
+      · have hf1 := (jDisableAlive_frame j (if kind = 0 then 0 else 1)).expect
+        generalize jDisableAlive j (if kind = 0 then 0 else 1) = j1 at hf1 ⊢
+        have hb := (jSet_frame { j1 with known := new :: j1.known, nofn := if kind = 0 then j1.nofn else new :: j1.nofn } new n).expect
+        generalize jSet { j1 with known := new :: j1.known, nofn := if kind = 0 then j1.nofn else new :: j1.nofn } new n = j3 at hb ⊢
+        have h3 : j3.expect = j.expect := hb.trans hf1
+        split
+        · rw [h3]; exact hq
+        · show quietExp j3.expect = true
+          rw [h3]; exact hq
+  | cloneDup s new => simp only [judge1]; split <;> exact hq
+  | into i c => exact hq
+  | intoNone i c => exact hq
+  | hookGone i => simp only [judge1]; split <;> exact hq
+  | destGone s t => simp only [judge1]; split <;> exact hq
+  | hook i c => simp only [judge1]; split <;> exact hq
+  | hookEnd t =>
+    simp only [judge1]
+    split
+    · exact hq
+    · split
+      · exact hq
+      · show quietExp (jDisable j t).expect = true
+        rw [(jDisable_frame j t).expect]; exact hq
+  | err o =>
+    rw [judge1_err]
+    unfold jErr
+    split
+    · rfl
+    · rw [jErr1_expect]; exact hq
+  | topErr o => exact hq
+  | topDead o => simp only [judge1]; split <;> exact hq
+  | topNoObj o => simp only [judge1]; split <;> exact hq
+  | flag o => exact hq
+  | hbs s l => simp only [judge1]; split <;> exact hq
+  | ctx o lv tp full => simp only [judge1]; split <;> (try split) <;> (try split) <;> exact hq
+  | caught o => exact hq
+  | reload s t n q =>
+    simp only [judge1]
+    split
+    · exact hq
+    · split
+      · exact hq
+      · have h3 : (jSet (jDisable j t) t n).expect = j.expect :=
+          ((jSet_frame (jDisable j t) t n).expect).trans (jDisable_frame j t).expect
+        split
+        · rw [h3]; exact hq
+        · show quietExp (jSet (jDisable j t) t n).expect = true
+          rw [h3]; exact hq
+  | reloadNone s t => simp only [judge1]; split <;> exact hq
+  | living o => exact hq
+  | burn o => exact hq
+  | tickOff => simp only [judge1]; split <;> first | exact hq | rfl
+  | tflags n => exact hq
+  | rp o => exact hq
+  | rpNone o => exact hq
+  | rpDone o => simp only [judge1]; split <;> exact hq
+  | junk s => exact hq
+
+/-- every accepted trace is quiet in the ticks that run without TIMER_FLAG_HEARTBEAT -/
+theorem accepted_quiet_when_off : ∀ (tr : List Ev) (j : JState) (off : Bool), (off = true → quietExp j.expect = true) →
+    (tr.foldl judge1 j).bad = j.bad → quietWhenOff off tr = true := by
+  intro tr
+  induction tr with
+  | nil => intro _ _ _ _; rfl
+  | cons e r ih =>
+    intro j off hinv hacc
+    simp only [List.foldl_cons] at hacc
+    have hstep := bad_of_step hacc
+    have hacc' : (r.foldl judge1 (judge1 j e)).bad = (judge1 j e).bad := by rw [hacc, hstep]
+    by_cases hb : ∃ o, e = .beat o
+    · obtain ⟨o, rfl⟩ := hb
+      have hex := (beat_accepted_iff j o).mp hstep
+      have hoff : off = false := by
+        cases off with
+        | false => rfl
+        | true => have := hinv rfl; rw [hex] at this; cases this
+      subst hoff
+      simp only [quietWhenOff, Bool.not_false, Bool.true_and]
+      exact ih _ false (fun h => by cases h) hacc'
+    · have hnb : ∀ o, e ≠ .beat o := fun o h => hb ⟨o, h⟩
+      by_cases ht : e = .tickBegin
+      · subst ht
+        simp only [quietWhenOff]
+        exact ih _ false (fun h => by cases h) hacc'
+      · by_cases hto : e = .tickOff
+        · subst hto
+          simp only [quietWhenOff]
+          apply ih _ true _ hacc'
+          intro _
+          simp only [judge1] at hstep ⊢
+          split
+          · rename_i hc; rw [if_pos hc] at hstep; exact absurd hstep (flagV_bad_ne rfl)
+          · rfl
+        · have hkeep : quietWhenOff off (e :: r) = quietWhenOff off r := by
+            cases e <;> first | rfl | exact absurd rfl ht | exact absurd rfl hto | exact absurd rfl (hnb _)
+          rw [hkeep]
+          exact ih _ off (fun h => quiet_step j e (hinv h) ht hnb) hacc'
+
+/-- for implementation traces as well -/
+theorem judge_ok_implies_quiet_when_off (tr : List Ev) (h : judgeEv tr = []) : quietWhenOff false tr = true := by
+  unfold judgeEv at h
+  have hb : (tr.foldl judge1 {}).bad = ({} : JState).bad := by simpa using h
+  exact accepted_quiet_when_off tr {} false (fun h => by cases h) hb
+
+/-- **no heart beat without TIMER_FLAG_HEARTBEAT.**  In every run of the model no heart_beat runs in a tick during which
+    timer_flags lacks the bit - whatever is on the list and whatever the cursor variables hold -/
+theorem no_beat_while_heart_beats_off (sc : Scripts) (cmds : List Cmd) (hk : Nat → List Op := fun _ => []) :
+    quietWhenOff false (events sc cmds hk) = true :=
+  judge_ok_implies_quiet_when_off _ (model_satisfies_spec sc cmds hk)
+
+example : quietWhenOff false [.tickOff, .beat 2] = false := by decide
+example : quietWhenOff false [.tickOff, .tickEnd, .tickBegin, .beat 2] = true := by decide
+
 -- non-vacuity: the predicates reject what they should
 example : beatsOnce [] [.tickBegin, .beat 2, .beatEnd 2, .beat 2] = false := by decide
 example : calledOnlyOn [] [.shb 2 2 0 0, .tickBegin, .beat 2] = false := by decide
